@@ -266,11 +266,11 @@ def r3b(ctx):
               "verify_upgrade's result is %s, not `q.extra.is_none()`: the recomputed block root can be exempted from the comparison with the stored node although the signed roots do not cover it" % shown,
               [loc(fa, b, s) for b, s, t in oks], key="C04|C04.R3|verify_upgrade|root consumed flag")
     nq = sites(fa, NQ_NEW)
-    with_root = [s for s in nq if is_agg(fa.arg_origin(s, 1), "Some") and "block_root" in term_str(fa.arg_origin(s, 1))]
+    with_root = [s for s in nq if (is_agg(fa.arg_origin(s, 1), "Some") and "block_root" in term_str(fa.arg_origin(s, 1))) or fa.arg_origin(s, 1) == ("param", "block_root")]
     without = [s for s in nq if is_agg(fa.arg_origin(s, 1), "None")]
     sw = [x for x in switch_edges_on(fa, lambda o: o == ("disc", ("param", "block_root")))]
     good = len(nq) == 2 and len(with_root) == 1 and len(without) == 1 and bool(sw) and fa.dominates(sw[0][2].get(1, -1), with_root[0]) and all(strip(fa.arg_origin(s, 0)) == ("field", ("param", "upgrade"), "nodes") for s in nq)
-    if len(nq) == 1:
+    if len(nq) == 1 and not sw:
         # one construction site fed by the parameter itself (`block_root.cloned()`)
         good = fa.arg_origin(nq[0], 1) == ("param", "block_root") and strip(fa.arg_origin(nq[0], 0)) == ("field", ("param", "upgrade"), "nodes")
     ctx.check(P, rule, "the queue is seeded with the block root exactly when there is one", good, "NodeQueue::new(upgrade.nodes, Some(block_root)) | NodeQueue::new(upgrade.nodes, None)",
